@@ -621,6 +621,81 @@ pub fn train_net(rng: &mut Rng, o: &GenOpts, spatial: bool, softmax: bool) -> Op
     Some((spec, input, *shapes.last().unwrap()))
 }
 
+/// scripts: several calls on ONE network object (learn / validate / predict / backward / predict_batch in
+/// random order); `focus` selects the family of networks: 0 dense or convolutional with dropout, 1 feedback
+/// blocks, 2 the 1->1 linear network of the early-stopping cases, 3 skip connections, 4 soft-max output
+pub fn gen_scripts(rng: &mut Rng, thorough: bool, focus: usize, tag: &str) -> Vec<Tagged> {
+    let mut out: Vec<Tagged> = vec![];
+    let reps = if thorough { 60 } else { 12 };
+    for r in 0..reps {
+        let mut o = GenOpts::default();
+        o.wkind = 2;
+        o.acts = vec![Act::Linear, Act::Tanh, Act::Sigmoid, Act::Leaky];
+        let built: Option<(NetSpec, Sh, Sh)> = match focus {
+            0 => { o.dropout = true; train_net(rng, &o, r % 3 == 0, false) }
+            1 => { o.dropout = r % 2 == 0; block_net(rng, &o, r % 2 == 1, 1 + r % 3, false, false, [Acc::Mean, Acc::Add][r % 2], true) }
+            2 => {
+                let mut spec = NetSpec::new(Sh::Flat(1).to_shape());
+                spec.layers.push(LayerSpec::One(Simple::Dense { out: 1, act: Act::Linear, bias: false, dropout: None }));
+                spec.weights = Some(vec![LW::One(W::Dense(t2(1, 1, &[0.5]), None))]);
+                Some((spec, Sh::Flat(1), Sh::Flat(1)))
+            }
+            3 => {
+                let (mut sp, i, o_) = two_block_net(rng, r, 2);
+                for l in sp.layers.iter_mut() {
+                    if let LayerSpec::Block { acc, .. } = l {
+                        if *acc == Acc::Overwrite || *acc == Acc::Sub || *acc == Acc::Mul {
+                            *acc = Acc::Mean;
+                        }
+                    }
+                }
+                sp.connect = vec![(0, sp.layers.len() - 1)];
+                sp.skipacc = Acc::Add;
+                if i.numel() == o_.numel() || true { Some((sp, i, o_)) } else { None }
+            }
+            _ => train_net(rng, &o, false, true),
+        };
+        let (mut spec, input, outsh) = match built { Some(b) => b, None => continue };
+        if focus == 3 {
+            // the skip source (network input, n values) must match the input of the last layer (n values): two_block_net keeps the width n
+        }
+        spec.obj = if focus == 4 { Obj::CE } else { Obj::MSE };
+        spec.opt = if focus == 2 { Opt::SGD { lr: [0.1f32, -0.05, 2.2, 1.05][r % 4], decay: None } } else { rand_opt(rng, r % 5) };
+        let mk_data = |rng: &mut Rng, n: usize| -> Vec<(Tensor, Tensor)> {
+            let mut d = rand_data(rng, n, input, outsh, spec.obj);
+            if focus == 4 {
+                for (_, t) in d.iter_mut() {
+                    let k = outsh.numel();
+                    let mut v = vec![0.0f32; k];
+                    v[rng.below(k)] = 1.0;
+                    *t = t1(v);
+                }
+            }
+            d
+        };
+        let nops = rng.range(3, 6);
+        let mut ops: Vec<NetCmd> = vec![];
+        for k in 0..nops {
+            let op = match (r + k * 7 + rng.below(3)) % 6 {
+                0 | 1 => {
+                    let nd = rng.range(1, 4);
+                    let data = mk_data(rng, nd);
+                    let nv = rng.range(1, 3);
+                    let val = if rng.coin() || focus == 2 { let v = mk_data(rng, nv); Some((v, rng.range(1, 3) as i32)) } else { None };
+                    NetCmd::Learn { data, val, batch: rng.range(1, 3), epochs: rng.range(1, 4) as i32 }
+                }
+                2 => { let nv = rng.range(1, 3); NetCmd::Validate { data: mk_data(rng, nv), tol: 0.25, pre_training: false } }
+                3 => NetCmd::Predict(rand_input(rng, input, 2)),
+                4 => { let d = mk_data(rng, 1); NetCmd::Backward(d[0].0.clone(), d[0].1.clone()) }
+                _ => NetCmd::PredictBatch((0..rng.range(1, 3)).map(|_| rand_input(rng, input, 2)).collect()),
+            };
+            ops.push(op);
+        }
+        out.push((format!("script-{}-f{}", tag, focus), Case::Net(spec, NetCmd::Script(ops))));
+    }
+    out
+}
+
 pub fn rand_data(rng: &mut Rng, n: usize, input: Sh, outsh: Sh, obj: Obj) -> Vec<(Tensor, Tensor)> {
     (0..n).map(|_| (rand_input(rng, input, 2), rand_target(rng, outsh, obj))).collect()
 }
